@@ -29,6 +29,8 @@ def biased_grammar(r):
     """Several within-word expressions: same shape with different literals, one transition / level / command apart."""
     if r.random() < 0.35:
         return c02.random_grammar(r)
+    if r.random() < 0.3:
+        return twin_words(r)
     pres = ['--a=', '--b=', '-c', 'd:', '--e=']
     r.shuffle(pres)
     nw = r.randint(2, 5)
@@ -55,6 +57,40 @@ def biased_grammar(r):
     e = seq(alt(*words) if r.random() < 0.7 else fb(*words), *tail[:r.randint(1, 3)])
     if r.random() < 0.3:
         e = alt(e, fb(lit('l0'), lit('l1'), lit('l2')))
+    return [call('cmd', e)]
+
+
+def twin_words(r):
+    """Two or three within-word expressions that are identical except for exactly one aspect: literal text
+    only (must share a shape), literal level, command level, command identity, which command, presence of an
+    any-text placeholder, one extra transition, a description."""
+    c1, c2 = cmd('echo apple'), cmd('echo berry')
+    a, b = lit('v'), lit('w')
+    aspects = ['text', 'lit-level', 'cmd-level', 'cmd-identity', 'star', 'extra', 'descr', 'cmd-vs-lit']
+    aspect = r.choice(aspects)
+    if aspect == 'text':
+        v1, v2 = alt(a, b), alt(lit('p'), lit('q'))
+    elif aspect == 'lit-level':
+        v1, v2 = fb(a, b), fb(b, a)
+    elif aspect == 'cmd-level':
+        v1, v2 = fb(c1, c2), fb(c2, c1)
+    elif aspect == 'cmd-identity':
+        v1, v2 = alt(a, c1), alt(a, c2)
+    elif aspect == 'star':
+        v1, v2 = alt(a, b), alt(a, nt('ANY'))
+    elif aspect == 'extra':
+        v1, v2 = alt(a, b), alt(a, b, lit('x'))
+    elif aspect == 'descr':
+        v1, v2 = alt(a, b), alt(lit('v', 'described'), b)
+    else:
+        v1, v2 = fb(a, c1), fb(c1, a)
+    words = [('word', (lit('--a='), v1)), ('word', (lit('--b='), v2))]
+    if r.random() < 0.5:
+        words.append(('word', (lit('--c='), r.choice([v1, v2]))))
+    r.shuffle(words)
+    e = seq(alt(*words), r.choice([lit('end'), c2, nt('U2')]))
+    if r.random() < 0.3:
+        e = alt(e, seq(lit('other'), c1))
     return [call('cmd', e)]
 
 
